@@ -36,6 +36,9 @@ func register(f *family) { families[f.name] = f }
 // An oracle checks a property statement directly on the real code.
 type oracleFailure struct {
 	Property string      `json:"property"`
+	// Signature is the stable id of the KIND of failure (matched against
+	// known_findings.json); when empty, What is used.
+	Signature string     `json:"signature,omitempty"`
 	What     string      `json:"what"`
 	Family   string      `json:"family,omitempty"`
 	Case     string      `json:"case,omitempty"`
